@@ -322,9 +322,22 @@ def build_text(rng, o, v, bl2, ol, om, bl, bad_target=None, bad_tail=None, bm=()
     return text, rnd
 
 
+_PARSER_CACHE = {}
+
+
+def parser_for(o):
+    """one long-lived parser per option set (parsers are reused for many texts in real use)"""
+    key = repr(sorted(o.items()))
+    if key not in _PARSER_CACHE:
+        if len(_PARSER_CACHE) > 300:
+            _PARSER_CACHE.clear()
+        _PARSER_CACHE[key] = mk_parser(o)
+    return _PARSER_CACHE[key]
+
+
 def judge(ctx, o, text, v, bl2, ol, om, bl, negative, case, bm=()):
     ctx.evaluated()
-    parser = mk_parser(o)
+    parser = parser_for(o)
     try:
         t = parser.parse(text)
     except llparser.ParsingError as err:
